@@ -21,7 +21,7 @@ type Config struct {
 }
 
 func defaultConfig() Config {
-	return Config{MaxSteps: 2_000_000, MaxDepth: 200, MaxAlloc: 1 << 16, Unwind: 64, Preempt: 2, MaxThreads: 24}
+	return Config{MaxSteps: 2_000_000, MaxDepth: 200, MaxAlloc: 1 << 16, Unwind: 64, Preempt: 2, MaxThreads: 400}
 }
 
 type nondetRec struct {
